@@ -83,6 +83,9 @@ def run_stdio_script(steps: List[Any], *, chunks: Optional[List[Any]] = None,
                         await settle()
                     elif op == "wait":
                         await asyncio.sleep(st[1])
+                    elif op == "register_stream":
+                        # the per-request routing API: a one-shot stream for this id (nobody needs to read it)
+                        out.setdefault("request_streams", {})[st[1]] = client.new_request_stream(st[1])
                     elif op == "pause_reading":
                         # the application stops consuming the read stream for a while
                         d1.cancel()
